@@ -406,8 +406,81 @@ pub fn c08() -> Outcome {
 }
 
 pub fn run(prop: &str) -> Option<Outcome> {
+    let a = run_a(prop);
+    match a {
+        Some(o) if o.fail.is_none() => match crate::bounded4::run(prop) { Some(b) => Some(Outcome { cases: o.cases + b.cases, distinct: o.distinct + b.distinct, fail: b.fail }), None => Some(o) },
+        other => other,
+    }
+}
+fn run_a(prop: &str) -> Option<Outcome> {
     Some(match prop { "C01" => c01(), "C03" => c03(), "C05" => c05(), "C08" => c08(), "C12" => c12(), "C14" => c14(),
         "C02" => crate::bounded2::c02(), "C04" => crate::bounded2::c04(), "C09" => crate::bounded2::c09(), "C10" => crate::bounded2::c10(), "C11" => crate::bounded2::c11(),
         "C13" => crate::bounded2::c13(), "C15" => crate::bounded2::c15(), "C16" => crate::bounded2::c16(),
         "C17" => crate::bounded3::c17(), "C19" => crate::bounded3::c19(), _ => return None })
+}
+
+// ------------------------------------------------------------------------------------------------------------------
+// Random structured part of the families ("part B"): deterministic PRNG (seed = VERIF_SEED), budget = RX_BUDGET cases
+// (200 in the quick tier, 5000 in the thorough tier).  Numbers stay small dyadic rationals so reference values are exact.
+pub struct Rng(pub u64);
+impl Rng {
+    pub fn new(salt: u64) -> Rng { let s: u64 = std::env::var("VERIF_SEED").ok().and_then(|v| v.parse().ok()).unwrap_or(0); Rng((s.wrapping_mul(0x9E3779B97F4A7C15) ^ salt.wrapping_mul(0xD1B54A32D192ED03)) | 1) }
+    pub fn next(&mut self) -> u64 { let mut x = self.0; x ^= x >> 12; x ^= x << 25; x ^= x >> 27; self.0 = x; x.wrapping_mul(0x2545F4914F6CDD1D) >> 11 }
+    pub fn below(&mut self, n: usize) -> usize { (self.next() % n.max(1) as u64) as usize }
+    pub fn pick<T: Copy>(&mut self, v: &[T]) -> T { v[self.below(v.len())] }
+    pub fn chance(&mut self, num: usize, den: usize) -> bool { self.below(den) < num }
+    pub fn coef(&mut self, exotic: bool) -> f64 {
+        if exotic && self.chance(1, 12) { return if self.chance(1, 2) { 0.0 } else { 2f64.powi(-60) }; }
+        self.pick(&[-3.0, -2.0, -1.5, -1.0, -0.5, 0.25, 0.5, 1.0, 2.0, 3.0])
+    }
+    pub fn value(&mut self) -> f64 { self.pick(&[-2.0, -1.0, -0.5, 0.0, 0.25, 0.5, 1.0, 2.0, 3.0]) }
+    pub fn shuffle<T>(&mut self, v: &mut Vec<T>) { for i in (1..v.len()).rev() { let j = self.below(i + 1); v.swap(i, j); } }
+}
+pub fn budget() -> usize { std::env::var("RX_BUDGET").ok().and_then(|v| v.parse().ok()).unwrap_or(200) }
+
+/// a raw (un-normalised) function message over `ids`: unsorted and repeated terms, any triangle, explicit zeros, absent linear part, several constants
+pub fn rand_function(r: &mut Rng, ids: &[u64], max_deg: usize, exotic: bool) -> Function {
+    use v1::function::Function as F;
+    let kind = if max_deg == 0 { 0 } else { r.below(max_deg.min(3) + 1) };
+    match kind {
+        0 => f_of(F::Constant(r.coef(false))),
+        1 => { let n = r.below(5); let t: Vec<(u64, f64)> = (0..n).map(|_| (r.pick(ids), r.coef(exotic))).collect(); f_of(F::Linear(lin(&t, r.coef(false)))) }
+        2 => {
+            // the schema forbids duplicated (row, column) positions in a quadratic: keep positions distinct, but any triangle / order
+            let n = r.below(5); let mut seen = BTreeSet::new(); let mut e = vec![];
+            for _ in 0..n { let p = (r.pick(ids), r.pick(ids)); if seen.insert(p) { e.push((p.0, p.1, r.coef(exotic))); } }
+            let l = if r.chance(2, 3) { let k = r.below(4); let t: Vec<(u64, f64)> = (0..k).map(|_| (r.pick(ids), r.coef(exotic))).collect(); Some(lin(&t, r.coef(false))) } else { None };
+            f_of(F::Quadratic(quad(&e, l)))
+        }
+        _ => {
+            let n = r.below(6); let mut p = Polynomial::default();
+            for _ in 0..n { let d = r.below(max_deg + 1); let mut m = Monomial::default(); m.ids = (0..d).map(|_| r.pick(ids)).collect(); m.coefficient = r.coef(exotic); p.terms.push(m); }
+            f_of(F::Polynomial(p))
+        }
+    }
+}
+pub fn rand_state(r: &mut Rng, ids: &[u64]) -> HashMap<u64, f64> { ids.iter().map(|i| (*i, r.value())).collect() }
+
+/// a random valid instance: variable ids in random order (not sorted, not contiguous), every kind, optional bounds, active and removed constraints
+pub fn rand_instance(r: &mut Rng, max_deg: usize) -> Instance {
+    let pool = [1u64, 2, 3, 5, 8, 13, 40];
+    let mut ids: Vec<u64> = pool.to_vec(); r.shuffle(&mut ids); let nv = 2 + r.below(4); ids.truncate(nv);
+    let dvs: Vec<DecisionVariable> = ids.iter().map(|&i| {
+        let kind = r.pick(&[Kind::Continuous, Kind::Integer, Kind::Binary]);
+        let bound = if kind == Kind::Binary { if r.chance(1, 2) { None } else { Some((0.0, 1.0)) } } else { r.pick(&[None, Some((-3.0, 3.0)), Some((0.0, 4.0)), Some((f64::NEG_INFINITY, 5.0)), Some((-2.0, f64::INFINITY))]) };
+        dv(i, kind, bound) }).collect();
+    let obj = rand_function(r, &ids, max_deg, false);
+    let nc = r.below(4); let mut cids: Vec<u64> = vec![7, 3, 21, 4, 100]; r.shuffle(&mut cids);
+    let cs: Vec<Constraint> = (0..nc).map(|k| con(cids[k], if r.chance(1, 2) { Equality::EqualToZero } else { Equality::LessThanOrEqualToZero }, rand_function(r, &ids, max_deg, false))).collect();
+    let mut i = inst(dvs, obj, cs);
+    if r.chance(1, 2) { i.sense = v1::instance::Sense::Maximize as i32; }
+    for k in 0..nc { if r.chance(1, 3) { let _ = i.relax_constraint(cids[k], format!("why{k}"), HashMap::new()); } }
+    i
+}
+/// a state inside the bounds of the instance's variables (integral for integer/binary kinds)
+pub fn rand_instance_state(r: &mut Rng, i: &Instance) -> HashMap<u64, f64> {
+    i.decision_variables.iter().map(|v| {
+        let (lo, up) = v.bound.as_ref().map(|b| (b.lower, b.upper)).unwrap_or(if v.kind == Kind::Binary as i32 { (0.0, 1.0) } else { (f64::NEG_INFINITY, f64::INFINITY) });
+        let cands: Vec<f64> = [-3.0, -2.0, -1.0, 0.0, 1.0, 2.0, 3.0, 4.0, -0.5, 0.5, 2.5].iter().cloned().filter(|x| *x >= lo && *x <= up && (v.kind == Kind::Continuous as i32 || x.fract() == 0.0)).collect();
+        (v.id, cands[r.below(cands.len())]) }).collect()
 }
